@@ -10,7 +10,69 @@ DS = "precondition/distributed_shampoo.py"
 
 OCO = "precondition/oco/algorithms.py"
 
+TFS = "precondition/tearfree/shampoo.py"
+TFK = "precondition/tearfree/sketchy.py"
+TFR = "precondition/tearfree/reshaper.py"
+TFG = "precondition/tearfree/grafting.py"
+TFM = "precondition/tearfree/momentum.py"
+REALLOC = "precondition/tearfree/reallocation.py"
+
 MUTANTS = [
+    # ---- C01
+    dict(id="c01_returns_previous_iterate", property="C01", edits=[(DS, "resultant_mat_h = is_converged * mat_h + (1 - is_converged) * old_mat_h", "resultant_mat_h = is_converged * old_mat_h + (1 - is_converged) * mat_h")],
+         note="returns the iterate before the last one together with the last iterate's error"),
+    dict(id="c01_identity_padding_unmasked", property="C01", edits=[(DS, "    matrix *= ix[:, jnp.newaxis]\n    identity *= ix\n\n  original_matrix = matrix", "    matrix *= ix[:, jnp.newaxis]\n\n  original_matrix = matrix")],
+         note="ridge and convergence identity also cover padding rows"),
+    dict(id="c01_power_iteration_unnormalised", property="C01", edits=[(DS, "    new_v = new_v / jnp.linalg.norm(new_v)\n\n    s_v = jnp.einsum", "    new_v = new_v / jnp.sqrt(jnp.linalg.norm(new_v))\n\n    s_v = jnp.einsum")],
+         note="Rayleigh quotient of a non-unit vector: estimate can exceed lambda_max"),
+    dict(id="c01_eigh_wrong_exponent", property="C01", edits=[(DS, "  del prev\n  assert matrix.shape[0] == matrix.shape[1]\n  matrix_size = matrix.shape[0]\n  orig_dtype = matrix.dtype\n  matrix = matrix.astype(_MAT_INV_PTH_ROOT_DTYPE)\n  alpha = jnp.asarray(-1.0 / p, _MAT_INV_PTH_ROOT_DTYPE)\n  identity = jnp.eye(matrix_size, dtype=_MAT_INV_PTH_ROOT_DTYPE)\n  if padding_start is not None:\n    ix = (jnp.arange(matrix_size, dtype=jnp.int32) < padding_start).astype(\n        matrix.dtype)\n    matrix *= ix[jnp.newaxis, :]\n    matrix *= ix[:, jnp.newaxis]\n    identity *= ix\n  if relative_matrix_epsilon:\n    _, max_ev = power_iteration(\n        matrix=matrix,\n        num_iters=100,\n        error_tolerance=error_tolerance,\n        precision=precision,", "  del prev\n  assert matrix.shape[0] == matrix.shape[1]\n  matrix_size = matrix.shape[0]\n  orig_dtype = matrix.dtype\n  matrix = matrix.astype(_MAT_INV_PTH_ROOT_DTYPE)\n  alpha = jnp.asarray(-1.0 / (p + 1), _MAT_INV_PTH_ROOT_DTYPE)\n  identity = jnp.eye(matrix_size, dtype=_MAT_INV_PTH_ROOT_DTYPE)\n  if padding_start is not None:\n    ix = (jnp.arange(matrix_size, dtype=jnp.int32) < padding_start).astype(\n        matrix.dtype)\n    matrix *= ix[jnp.newaxis, :]\n    matrix *= ix[:, jnp.newaxis]\n    identity *= ix\n  if relative_matrix_epsilon:\n    _, max_ev = power_iteration(\n        matrix=matrix,\n        num_iters=100,\n        error_tolerance=error_tolerance,\n        precision=precision,")],
+         note="eigh path computes the -1/(p+1) power but reports the eigendecomposition error"),
+    dict(id="c01_retry_ridge_100x", property="C01", edits=[(DS, "damped_matrix = matrix + (ridge_epsilon * (10**i) * identity)\n      z =", "damped_matrix = matrix + (ridge_epsilon * (100**i) * identity)\n      z =")],
+         note="retries damp by 100^i instead of the documented 10^i (needs a retry to manifest)"),
+    dict(id="c01_allpad_not_zeroed", property="C01", edits=[(DS, "    resultant_mat_h = jnp.where(padding_start == 0, 0.0, resultant_mat_h)\n", "")],
+         note="all-padding inputs return a non-zero matrix"),
+    dict(id="c01_scalar_no_ridge", property="C01", edits=[(DS, "resultant_mat_h = damped_matrix**alpha", "resultant_mat_h = matrix**alpha")],
+         note="1x1 branch forgets the ridge"),
+    dict(id="c01_matrix_padding_unmasked", property="C01", edits=[(DS, "    matrix *= ix[jnp.newaxis, :]\n    matrix *= ix[:, jnp.newaxis]\n    identity *= ix\n\n  original_matrix", "    identity *= ix\n\n  original_matrix")],
+         note="Newton path no longer masks the identity padding block of the input"),
+    dict(id="c01_control_eigh_val_formula", property="C01", expect="silent", edits=[(DS, "  root = u * jnp.sqrt(inv_e)\n  val = mm(root, root.T)\n", "")],
+         note="control: keep val = U diag(inv_e) U' instead of the symmetrised product (same matrix)"),
+    # ---- C02
+    dict(id="c02_stats_w2_always_one", property="C02", edits=[(DS, "    w1 = beta2\n    w2 = jnp.where(beta2 == 1.0, beta2, 1.0 - beta2)\n    new_avg_grad", "    w1 = beta2\n    w2 = 1.0\n    new_avg_grad")]),
+    dict(id="c02_exponent_halved", property="C02", edits=[(DS, "    return 2 * num_preconditioners", "    return max(num_preconditioners, 1)")]),
+    dict(id="c02_nesterov_drops_w", property="C02", edits=[(DS, "nesterov_momentum_update = w * wd_update + beta1 * momentum_update", "nesterov_momentum_update = wd_update + beta1 * momentum_update")],
+         note="only differs with moving_average_for_momentum and nesterov"),
+    dict(id="c02_warmup_off_by_one", property="C02", edits=[(DS, "run_shampoo = (step >= start_preconditioning_step)", "run_shampoo = (step > start_preconditioning_step)")]),
+    dict(id="c02_graft_multiplier_inverted", property="C02", edits=[(DS, "multiplier = (grafting_update_norm / (precond_grad_norm + _EPSILON))", "multiplier = (precond_grad_norm / (grafting_update_norm + _EPSILON))")]),
+    dict(id="c02_rmsprop_weights_swapped", property="C02", edits=[(DS, "          w1 * state.diagonal_statistics.to_float() +\n          w2 * jnp.square(scaled_grad))", "          w2 * state.diagonal_statistics.to_float() +\n          w1 * jnp.square(scaled_grad))")]),
+    dict(id="c02_coupled_lr_applied_twice", property="C02", edits=[(DS, "momentum_multiplier = lr if decoupled_learning_rate else 1.0", "momentum_multiplier = lr")]),
+    dict(id="c02_decoupled_wd_lr_swapped", property="C02", edits=[(DS, "wd_lr = 1.0 if decoupled_learning_rate else lr", "wd_lr = lr if decoupled_learning_rate else 1.0")]),
+    dict(id="c02_block_slot_slip", property="C02", edits=[(DS, "          start=i * num_preconditioners,\n          end=(i + 1) * num_preconditioners,", "          start=i,\n          end=i + num_preconditioners,")],
+         note="blocks after the first take the wrong preconditioner slots (needs >=2 blocks and >=2 axes)"),
+    dict(id="c02_merge_strict", property="C02", edits=[(DS, "    if product * d <= max_dim:", "    if product * d < max_dim:")],
+         note="merging stops one short of the documented limit"),
+    dict(id="c02_adagrad_abs", property="C02", edits=[(DS, "state.diagonal_statistics.to_float() + jnp.square(scaled_grad))", "state.diagonal_statistics.to_float() + jnp.abs(scaled_grad))")]),
+    dict(id="c02_momenta_swapped_in_state", property="C02", edits=[(DS, "        _quantize_momentum(new_diagonal_momentum),\n        _quantize_momentum(new_momentum),", "        _quantize_momentum(new_momentum),\n        _quantize_momentum(new_diagonal_momentum),")]),
+    dict(id="c02_sign_graft_ones", property="C02", edits=[(DS, "grafting_update = jnp.ones_like(sgd_update) * jnp.sign(sgd_update)", "grafting_update = jnp.ones_like(sgd_update)")]),
+    dict(id="c02_coupled_wd_after_momentum", property="C02", edits=[(DS, "      shampoo_update_with_wd = shampoo_update + weight_decay * param\n", "      shampoo_update_with_wd = shampoo_update + 0.5 * weight_decay * param\n")]),
+    dict(id="c02_stats_contract_wrong_axis", property="C02", edits=[(DS, "  axes = [i for i in range(g.ndim) if i != axis]\n  gram_matrix", "  axes = [i for i in range(g.ndim) if i != (g.ndim - 1 - axis)]\n  gram_matrix")],
+         note="Gram matrix taken along the mirrored axis (differs for non-square blocks)"),
+    dict(id="c02_control_contract_axis1", property="C02", expect="silent", edits=[(DS, "      g = jnp.tensordot(g, preconditioners[j], axes=[[0], [0]])", "      g = jnp.tensordot(g, preconditioners[j], axes=[[0], [1]])")],
+         note="control: preconditioners are symmetric, contracting the other index is equivalent up to rounding"),
+    # ---- C03
+    dict(id="c03_gate_gt_instead_of_ge", property="C03", edits=[(DS, "    def _skip(error):\n      condition = jnp.logical_or(\n          jnp.isnan(error), error >= inverse_failure_threshold)\n      return condition.astype(error.dtype)\n\n    def _select_preconditioner(error, new_p, old_p):\n      return lax.cond(\n          _skip(error), lambda _: old_p, lambda _: new_p, operand=None)\n\n    new_preconditioners_flat = []\n    new_errors_flat = metrics_flat.inverse_pth_root_errors\n    for p, shape, prev_p, error in zip(preconditioners_flat, original_shapes,\n                                       prev_preconditioners, new_errors_flat):\n      new_preconditioners_flat.append(\n          _select_preconditioner(error, p[:shape[0], :shape[1]], prev_p))", "    def _skip(error):\n      condition = jnp.logical_or(\n          jnp.isnan(error), error > inverse_failure_threshold)\n      return condition.astype(error.dtype)\n\n    def _select_preconditioner(error, new_p, old_p):\n      return lax.cond(\n          _skip(error), lambda _: old_p, lambda _: new_p, operand=None)\n\n    new_preconditioners_flat = []\n    new_errors_flat = metrics_flat.inverse_pth_root_errors\n    for p, shape, prev_p, error in zip(preconditioners_flat, original_shapes,\n                                       prev_preconditioners, new_errors_flat):\n      new_preconditioners_flat.append(\n          _select_preconditioner(error, p[:shape[0], :shape[1]], prev_p))")],
+         note="replicated gate uses > : the non-refresh placeholder error equals the threshold, so statistics get installed on non-refresh steps"),
+    dict(id="c03_sharded_isnan_dropped", property="C03", edits=[(DS, "    predicate = jnp.logical_or(\n        jnp.isnan(errors),\n        errors >= inverse_failure_threshold)", "    predicate = errors >= inverse_failure_threshold")],
+         note="sharded gate forgets the NaN test"),
+    dict(id="c03_sharded_blend_again", property="C03", edits=[(DS, "    new_conditional_preconditioners = jnp.where(\n        predicate, global_stats.preconditioners, new_preconditioners)", "    predicate = predicate.astype(new_preconditioners.dtype)\n    new_conditional_preconditioners = (\n        predicate * global_stats.preconditioners +\n        (1.0 - predicate) * new_preconditioners)")],
+         note="the original arithmetic blend (0*NaN leaks)"),
+    dict(id="c03_quantized_diag_always_new", property="C03", edits=[(DS, "          _select_preconditioner(error, d[:shape[0]], prev_p.diagonal))", "          d[:shape[0]])")],
+         note="quantized mode installs the new diagonal even when the root was rejected"),
+    dict(id="c03_placeholder_error_zero", property="C03", edits=[(DS, "          default_training_metrics(\n              generate_fd_metrics\n          ).replace(inverse_pth_root_errors=inverse_failure_threshold))\n      init_state = [preconditioners_init, metrics_init]", "          default_training_metrics(\n              generate_fd_metrics\n          ).replace(inverse_pth_root_errors=0.0))\n      init_state = [preconditioners_init, metrics_init]")],
+         note="non-refresh placeholder error 0 instead of the threshold: statistics accepted as preconditioners"),
+    dict(id="c03_eigh_inf_again", property="C03", edits=[(DS, "  inv_e = jnp.where((e == 0.0) | (floored_e <= 0.0), 0.0,", "  inv_e = jnp.where((e == 0.0), 0.0,")],
+         note="eigh with zero ridge returns inf for singular statistics"),
+
     # ---- C16
     dict(id="c16_ogd_no_delta", property="C16", edits=[(OCO, "jax.lax.rsqrt(state['t'] + hparams.delta)", "jax.lax.rsqrt(state['t'])")]),
     dict(id="c16_ada_abs", property="C16", edits=[(OCO, "state['diag_h'] = state['diag_h'] + grad**2", "state['diag_h'] = state['diag_h'] + jnp.abs(grad)")]),
